@@ -305,6 +305,21 @@ func pickEngine(c *Ctx) {
 		}
 		return
 	}
+	// a ware ID is not a path: hashes with separators or dot segments name nothing in a content-addressed warehouse,
+	// local or http — in particular not some other object the server happens to have (here: /7/holding)
+	for _, h := range []string{"../../7/holding", "../7/holding", "x/../../../7/holding", "7/holding", "..", ".", "a/b", "abcdefghijk/../../../7/holding"} {
+		for _, base := range []string{"ca+http" + strings.TrimPrefix(env.srv.URL, "http") + "/wh/deep", "ca+http" + strings.TrimPrefix(env.srv.URL, "http") + "/wh"} {
+			op := "pick-hostile-id " + hx(h) + " " + base
+			r := pickDirect(api.WareID{Type: "tar", Hash: h}, []api.WarehouseLocation{api.WarehouseLocation(base)})
+			c.EmitR(op, "skip", "skip")
+			c.H("hostile-id:" + strings.Fields(r)[0])
+			if strings.HasPrefix(r, "opened") {
+				c.PropFail("pick-wrong-warehouse", fmt.Sprintf("the ware id tar:%s was served by %s (another object of the server: the hash was joined into the URL path)", h, base), op)
+			} else if r == "panic" {
+				c.PropFail("pick-aborted", "a ware id with path separators made the fetch panic", op)
+			}
+		}
+	}
 	var kinds []string
 	for _, s := range []string{"file", "ca+file"} {
 		for _, cd := range []string{"missingdir", "lacking", "holding"} {
